@@ -2,6 +2,16 @@
 """Rewrites the region between the SEEDED-TABLE markers of DESIGN.md from
 seeded/*/meta.json (which checks catch which independently seeded changes)."""
 import glob, json, os, re
+# outcome of the last complete sensitivity run (mutants/REPORT.md, last '## run' section)
+final = {}
+try:
+    rep = open('mutants/REPORT.md').read().split('## run ')[-1].splitlines()
+    for ln in rep:
+        mm = re.match(r'- (KILLED|SURVIVED)\s+(C\d\d) (\S+)(?: :: (.*))?', ln)
+        if mm:
+            final[mm.group(3)] = (mm.group(1), mm.group(2), (mm.group(4) or '').strip())
+except Exception:
+    pass
 rows = []
 for d in sorted(glob.glob('seeded/*/')):
     m = json.load(open(os.path.join(d, 'meta.json')))
@@ -16,9 +26,13 @@ for d in sorted(glob.glob('seeded/*/')):
     else:
       status = 'caught' if not missed else ('missed at first, caught after strengthening' if caught_after else 'missed at first')
     sigs = re.findall(r'exit 1 \(([^)]*)\)', conf)
+    fin = final.get('seeded/' + name)
+    fintxt = '' if fin is None else ('killed by %s' % fin[1] if fin[0] == 'KILLED' else 'SURVIVES %s' % fin[1])
+    if fin is not None and fin[0] == 'SURVIVED' and 'caught by C' in conf:
+        fintxt += ' (caught by another property\'s check, see meta.json)'
     rows.append((m.get('property', '?'), name, (m.get('title') or m.get('what_it_breaks', ''))[:150].replace('|', '/'),
-                 (m.get('needs_to_manifest') or '')[:170].replace('|', '/').replace('\n', ' '), status, '; '.join(sigs)[:160].replace('|', '/')))
-out = ['| property | seeded change | what it does | needs to manifest | outcome | failing clause(s) |', '|---|---|---|---|---|---|']
+                 (m.get('needs_to_manifest') or '')[:170].replace('|', '/').replace('\n', ' '), status, '; '.join(sigs)[:160].replace('|', '/'), fintxt))
+out = ['| property | seeded change | what it does | needs to manifest | outcome when first run | failing clause(s) | final run (own property\'s quick check) |', '|---|---|---|---|---|---|---|']
 for r in sorted(rows):
     out.append('| ' + ' | '.join(r) + ' |')
 s = open('DESIGN.md').read()
